@@ -261,7 +261,7 @@ func runSolvers(script, workDir, tag string, timeoutS int, which []string) *Solv
 	defer cancel()
 	type res struct {
 		name, status, out string
-		t               float64
+		t                 float64
 	}
 	ch := make(chan res, len(solvers))
 	var wg sync.WaitGroup
